@@ -63,6 +63,11 @@ type Op struct {
 
 type Case struct {
 	Ops []Op `json:"ops"`
+	// Race (dummy-timer unit only): a time-out that is due at exactly the instant a packet is
+	// handled behaves like a real timer that has already fired and waits for the PIT lock - its
+	// cancellation comes too late and its function runs right after the packet handler returns.
+	// (The bubble unit explores the other order: there the timer function runs first.)
+	Race bool `json:"race,omitempty"`
 }
 
 const defaultLife = 4 * time.Second // NDN default InterestLifetime (no lifetime element)
@@ -203,6 +208,47 @@ func (c dummyClock) timer() ndn.Timer        { return c.t }
 func (c dummyClock) now() time.Time          { return c.t.Now() }
 func (c dummyClock) advance(d time.Duration) { c.t.MoveForward(d) }
 func (c dummyClock) settle()                 {}
+
+// raceTimer wraps the repository's dummy.Timer (see Case.Race).
+type raceTimer struct {
+	*dummy.Timer
+	pending []func()
+	lost    int
+}
+
+func (r *raceTimer) Schedule(d time.Duration, f func()) func() error {
+	due := r.Timer.Now().Add(d)
+	cancel := r.Timer.Schedule(d, f)
+	return func() error {
+		if r.Timer.Now().Equal(due) {
+			_ = cancel() // it must not run a second time later
+			r.pending = append(r.pending, f)
+			r.lost++
+			return fmt.Errorf("timer has already fired")
+		}
+		return cancel()
+	}
+}
+
+// flush runs the timer functions whose cancellation came too late.
+func (r *raceTimer) flush() bool {
+	if len(r.pending) == 0 {
+		return false
+	}
+	p := r.pending
+	r.pending = nil
+	for _, f := range p {
+		f()
+	}
+	return true
+}
+
+type raceClock struct {
+	dummyClock
+	r *raceTimer
+}
+
+func (c raceClock) timer() ndn.Timer { return c.r }
 
 type bubbleClock struct{ t ndn.Timer }
 
@@ -480,6 +526,12 @@ func run(c Case, clk clock) (res evid.Result) {
 		}
 		if op.K == "ex" && life(op.L) > maxLife {
 			maxLife = life(op.L)
+		}
+		if rc, ok := clk.(raceClock); ok && rc.r.flush() {
+			h.cls["timer-function-ran-after-the-packet-that-cancelled-it-too-late"] = true
+			if err := h.judgeTimeouts(step, "timer function of a time-out cancelled too late"); err != nil {
+				return h.result(err)
+			}
 		}
 		h.track()
 	}
@@ -841,7 +893,11 @@ func (h *harness) step(step int, op Op, nInt *int) error {
 }
 
 func execDummy(c Case) evid.Result {
-	return run(c, dummyClock{dummy.NewTimer()})
+	t := dummy.NewTimer()
+	if c.Race {
+		return run(c, raceClock{dummyClock{t}, &raceTimer{Timer: t}})
+	}
+	return run(c, dummyClock{t})
 }
 
 func execBubble(t *testing.T) func(Case) evid.Result {
@@ -875,6 +931,7 @@ func genCase(t *rapid.T) Case {
 	var incs []gInc
 	nInt := 0
 	nops := rapid.IntRange(1, 40).Draw(t, "nops")
+	c.Race = rapid.Bool().Draw(t, "race")
 	randName := func(label string, minDepth int) string {
 		d := rapid.IntRange(minDepth, 4).Draw(t, label+"depth")
 		cs := make([]string, d)
@@ -931,13 +988,26 @@ func genCase(t *rapid.T) Case {
 			if len(exps) > 0 && rapid.IntRange(0, 9).Draw(t, "around") < 6 {
 				// land around the lifetime / the engine's time-out instant of some expressed Interest
 				e := rapid.SampledFrom(exps).Draw(t, "advtarget")
-				delta := rapid.SampledFrom([]int64{-1000, -1, 0, 1, 5000, 9999, 10000, 10001, 11000, 20000}).Draw(t, "advdelta")
+				delta := rapid.SampledFrom([]int64{-1000, -1, 0, 1, 5000, 9999, 10000, 10000, 10000, 10001, 11000, 20000}).Draw(t, "advdelta")
 				op.D = e.at + e.life + delta - now
+				if op.D > 0 && (delta == 0 || delta == 10000) && rapid.Bool().Draw(t, "hit") {
+					// and let a packet for that very Interest arrive at this instant
+					c.Ops = append(c.Ops, op)
+					now += op.D
+					if rapid.Bool().Draw(t, "hitnack") {
+						op = Op{K: "nack", N: e.name, R: 150}
+					} else {
+						op = Op{K: "data", N: e.name, V: 1}
+					}
+					op.D = 0
+				}
 			}
-			if op.D <= 0 {
-				op.D = rapid.SampledFrom([]int64{1, 1000, 4000, 5000, 6000, 10000, 100000, 1000000, 5000000}).Draw(t, "advd")
+			if op.K == "adv" {
+				if op.D <= 0 {
+					op.D = rapid.SampledFrom([]int64{1, 1000, 4000, 5000, 6000, 10000, 100000, 1000000, 5000000}).Draw(t, "advd")
+				}
+				now += op.D
 			}
-			now += op.D
 		case "att":
 			op = Op{K: "att", N: related("att", 0), M: rapid.SampledFrom([]int{0, 0, 1, 1, 1, 2}).Draw(t, "mode")}
 			if len(attached) > 0 && rapid.IntRange(0, 9).Draw(t, "attnest") < 6 {
